@@ -46,6 +46,8 @@ PROPS["C11"] = {
     "jobs": [
         {"name": "cell_parser", "pkg": "hrpc", "entry": "VerifCellParser", "reach": ["decoded"],
          "params": {"quick": {"N": 28}, "thorough": {"N": 40}}},
+        {"name": "cell_test_vectors", "pkg": "hrpc", "entry": "VerifCellTestVectors", "reach": ["vectors"], "sample_pass": 1,
+         "params": {"quick": {}, "thorough": {}}},
         {"name": "cell_parser_slack", "pkg": "hrpc", "entry": "VerifCellParserSlack", "reach": ["decoded"],
          "params": {"quick": {"N": 26, "X": 8}, "thorough": {"N": 32, "X": 16}}},
         {"name": "deserialize_blocks", "pkg": "hrpc", "entry": "VerifDeserializeBlocks", "reach": ["decoded"],
